@@ -94,6 +94,13 @@ def find_offset(ref, out, prefer):
     return prefer if prefer in hits else hits[0]
 
 
+def keeps_dm(ck, api, blk_in, blk_out):
+    """a block made from another by a transform that applies no DM carries the DM attribute of its input"""
+    if not close(float(blk_out.dm), float(blk_in.dm), STOL):
+        ck.fail(api, "block-dm", "the DM attribute of the returned block is not that of the block it was made from",
+                dm_in=float(blk_in.dm), dm_out=float(blk_out.dm))
+
+
 class Checker:
     """the property, clause by clause, against one product"""
 
@@ -170,15 +177,12 @@ def run(R: vlib.Run):
                  "packed outputs (1/2/4 bits): every block handed to the writer is a whole number of bytes, i.e. gulp*nchans*nbits_out and nsamps*nchans*nbits_out "
                  "are multiples of 8 (FileWriter.cwrite packs block by block and drops the bits of an incomplete last byte: 64 samples x 6 channels requantized "
                  "to 1 bit with gulp=7 come out as 60 samples), and they are made from 8-bit inputs only (pack() refuses 16/32-bit data)",
-                 "tstart of a block padded at its START (BaseBlock.pad_samples with offset > 0, hence PulseExtractor.get_data for a pulse closer to the start of "
-                 "the file than half a block, nstart < 0) is not demanded: pad_samples keeps the tstart of the unpadded block although column 0 is now "
-                 "`offset` samples earlier; tstart IS demanded of end-padded blocks and of extracted pulses with nstart >= 0",
                  "tstart + start*tsamp/86400 is demanded on days of 86400 s: no input starts on a UTC day that ends in a leap second (e.g. MJD 57753), where "
                  "astropy's UTC MJD (a day of 86401 s) differs from the SIGPROC convention by 11.6 us per second elapsed",
                  "FilterbankBlock.dedisperse(only_valid_samples=True): tstart is demanded only when no dispersion delay is negative (descending band and dm >= 0); "
                  "with a negative delay the first valid column of the reference channel is block sample max|delay| while tstart is left unchanged",
-                 "the DM attribute of a block is demanded of read_block / read_dedisp_block / dedisperse; FilterbankBlock.downsample / normalise / pad_samples "
-                 "return a block whose dm attribute is reset to 0 (its header keeps the input's dm, which is what is compared)"]
+                 "the DM attribute of a block is demanded of read_block / read_dedisp_block / dedisperse and of the blocks FilterbankBlock.downsample / "
+                 "normalise / pad_samples make from them (attribute and header are separate records; each must keep what the input block had)"]
     R.prove("Props/C08.v")
     R.need(["Model/C08_rt.vo", "Gen/C08.vo"])
 
@@ -663,7 +667,9 @@ def run(R: vlib.Run):
                     ck.fail("block.downsample", "shape", "nchans/nsamples differ from the data's shape", shape=list(b.data.shape), header_out=ho, ffactor=ff, tfactor=tf)
                 ck.common("block.downsample", blk_h, ho, t0=0, tf=tf, dm=blk_h["dm"], extra=dict(ffactor=ff, tfactor=tf))
                 ck.sum_labels("block.downsample", blk_h, ho, ff, ho["nchans"], extra=dict(ffactor=ff, tfactor=tf))
-                corr.append((f"hdr_close (hdr_block_downsample {blk_t} {ff} {tf}) {hdr_term(b.header)}", dict(base, api="block.downsample", ffactor=ff, tfactor=tf, impl=ho)))
+                corr.append((f"hdr_close (hdr_block_downsample {blk_t} {ff} {tf} {q(blk.dm)}) {hdr_term(b.header)}", dict(base, api="block.downsample", ffactor=ff, tfactor=tf, impl=ho)))
+                corr.append((f"Qclose (1 # 1000000000) (cdm_block_downsample {blk_t} {ff} {tf} {q(blk.dm)}) {q(b.dm)}", dict(base, api="block.downsample", ffactor=ff, tfactor=tf, impl=ho)))
+                keeps_dm(ck, "block.downsample", blk, b)
             kk, b = call(blk.normalise)
             R.case(("block_normalise", ci), nontrivial=False, regime="block_other")
             if kk != "ok":
@@ -673,6 +679,7 @@ def run(R: vlib.Run):
                     ck.fail("block.normalise", "shape", "nchans/nsamples differ from the data's shape", shape=list(b.data.shape))
                 ck.common("block.normalise", blk_h, hdict(b.header), t0=0, dm=blk_h["dm"])
                 ck.copy_labels("block.normalise", blk_h, hdict(b.header), list(range(C)))
+                keeps_dm(ck, "block.normalise", blk, b)
             nfin = blk.data.shape[1] + rng.randrange(1, 9)
             poff = rng.randrange(0, nfin - blk.data.shape[1] + 1)
             kk, b = call(blk.pad_samples, nfin, poff)
@@ -682,10 +689,11 @@ def run(R: vlib.Run):
             else:
                 if b.data.shape != (b.header.nchans, b.header.nsamples):
                     ck.fail("block.pad_samples", "shape", "nchans/nsamples differ from the data's shape", shape=list(b.data.shape))
-                # tstart is demanded only of a block padded at its end (leading pad: see R.assume)
-                ck.common("block.pad_samples", blk_h, hdict(b.header), t0=0 if poff == 0 else None, dm=blk_h["dm"], extra=dict(nsamps_final=nfin, offset=poff))
+                # column 0 of the padded block lies `offset` samples before the data: tstart moves back by the leading pad
+                ck.common("block.pad_samples", blk_h, hdict(b.header), t0=-poff, dm=blk_h["dm"], extra=dict(nsamps_final=nfin, offset=poff))
+                keeps_dm(ck, "block.pad_samples", blk, b)
                 ck.copy_labels("block.pad_samples", blk_h, hdict(b.header), list(range(C)), extra=dict(nsamps_final=nfin, offset=poff))
-                corr.append((f"hdr_close (hdr_block_pad_samples {blk_t} {nfin}) {hdr_term(b.header)}", dict(base, api="block.pad_samples", impl=hdict(b.header))))
+                corr.append((f"hdr_close (hdr_block_pad_samples {blk_t} {nfin} {poff}) {hdr_term(b.header)}", dict(base, api="block.pad_samples", impl=hdict(b.header))))
             # the block as read (not dedispersed): its time series and the file written from it record the DM of the input
             kk, t = call(blk.get_tim)
             R.case(("block_get_tim_plain", ci), nontrivial=blk_h["dm"] != 0, regime="block_get_tim")
@@ -1024,7 +1032,7 @@ def _pulse_cases(R):
                             R.fail("PulseExtractor-shape", "shape of the extracted block / header nsamples differs from the declared block length",
                                    dict(case, shape=list(data.shape), header_nsamples=int(blk.header.nsamples)))
                             continue
-                        if nst >= 0:      # nothing padded at the start (leading pad: see R.assume in run())
+                        if True:          # with a leading pad too: column 0 is file sample nstart (negative: before the file)
                             err = (float(blk.header.tstart) - (p_tstart + nst * p_tsamp / 86400.0)) * 86400.0
                             if abs(err) > TTOL:
                                 R.fail("PulseExtractor-tstart", "tstart of the extracted block is not the file's advanced by nstart*tsamp (5 us)",
@@ -1082,7 +1090,7 @@ def _pulse_cases(R):
                 if not lclose(ho["fch1"], pf1 + src0 * pfo, pfo) or not close(ho["foff"], pfo, FTOL):
                     R.fail("PulseExtractor-label", "fch1 / foff of the extracted block are not the labels of the channels it holds",
                            dict(case, header_out=ho, first_channel=src0, its_label=pf1 + src0 * pfo))
-                if nst >= 0 and abs(ho["tstart"] - (60000.0 + nst * 0.001 / 86400.0)) * 86400.0 > TTOL:
+                if abs(ho["tstart"] - (60000.0 + nst * 0.001 / 86400.0)) * 86400.0 > TTOL:
                     R.fail("PulseExtractor-tstart", "tstart of the extracted block is not the file's advanced by nstart*tsamp (5 us)", dict(case, header_out=ho, nstart=nst))
         # correspondence: regenerated geometry and row against the implementation
         per = 200
